@@ -54,6 +54,8 @@ CODES = {1: "Gallina model of the copy operation and the implementation differ (
             "of Model.copy (coq/theories/Copy/CopyWf.v)",
          8: "the real heap does not satisfy wf_model_content, the hypothesis of the general structure theorem of "
             "Model.copy (coq/theories/Copy/CopyWfContent.v)",
+         9: "the real heap does not satisfy consistent_b, the hypothesis of the general equivalence theorem "
+            "model_copy_equiv (coq/theories/Copy/CopyEquiv.v)",
          11: "identity probe: a mutable Python object is reachable from both the operand and the result",
          12: "full observation (objects, raw GLPK problem, tolerance, optimum) of the copy differs from the original",
          13: "frame: an edit on one model changed the observation of the other",
@@ -61,7 +63,7 @@ CODES = {1: "Gallina model of the copy operation and the implementation differ (
          15: "the operation raised"}
 OPS = {"copy": "OpModelCopy", "deepcopy": "OpDeepcopy", "pickle": "OpPickle", "rcopy": "OpReactionCopy",
        "scopy": "OpSpeciesCopy"}
-THEOREMS = ("C12_model_copy_separated, C12_model_copy_frame, C12_model_copy_structure, C12_model_copy_total, "
+THEOREMS = ("C12_model_copy_separated, C12_model_copy_frame, C12_model_copy_equiv, C12_model_copy_structure, C12_model_copy_total, "
             "C12_deepcopy_separated, C12_points_to_copy, C12_frame, C12_detached, "
             "C12_table_safe, C12_table_shape (coq/theories/Properties/C12.v)")
 
